@@ -14,7 +14,7 @@ SPEC = {
     "required": ["shot_refinement", "refinement_invariant", "step_refinement", "trace_iff_run", "runs_iff_oracle",
                  "gateSemOK_basis_gates", "shot_refinement_basis_gates", "gateSemOK_all_terms", "shot_refinement_unconditional",
                  "shot_refinement_complex", "complex_is_model", "hyps_complex", "histogram_gf_unconditional",
-                 "measure_all_repeated_target_ors", "localWeights_of_field", "counts_invariant",
+                 "measure_all_repeated_target_ors", "stab_shot_refinement", "stab_measure_per_shot", "localWeights_of_field", "counts_invariant",
                  "collapse_is_project_rescale", "weight_is_born", "collapse_exact", "measure_per_shot", "peek_leaves_state",
                  "peek_all_leaves_state", "reset_per_shot", "reset_leaves_qubit_zero", "stab_peek_all_bell_impossible_value"],
     "drivers": ["drv_c02"],
@@ -42,8 +42,9 @@ def run(ctx):
         "n < 64 for composites); GateSemOK is proved for them (gateSemOK_all_terms), no gate hypothesis left",
         "D14 excluded (distinct measure_all/peek_all targets, OpOK) and witnessed (measure_all_repeated_target_ors); LocalWeights (any "
         "field) needed for reset_all only",
-        "stabilizer backend: no per-shot theorem (it would be relative to the C03 tableau contract); D5 is witnessed on the model "
-        "(stab_peek_all_bell_impossible_value); the backend is covered by correspondence (A) and replay (B) only",
+        "stabilizer backend: stab_shot_refinement is RELATIVE TO the explicit tableau contract TableauOK (Tab.new/applyGate/measure "
+        "classification/collapse/reset follow the reference semantics: the statements of C03, not proved here); peek_all excluded "
+        "(D5, witnessed: stab_peek_all_bell_impossible_value); measure_all needs n distinct targets",
         "IEEE-754 rounding outside the model (agreement to 1e-9)",
         "rand/rand_distr sample exactly from the requested Binomial/WeightedIndex (the model only fixes which distribution is requested)",
     ]
